@@ -511,7 +511,16 @@ def run(ck):
         hist[c] = hist.get(c, 0) + 1
         ck.count("site-class:" + c)
     ck.log("allocation sites: %d  %s" % (len(sites), " ".join("%s=%d" % x for x in sorted(hist.items()))))
+    # statically visible sites that use the result without a test are findings whether or not the configuration builds them: each
+    # is reported by its own signature (an entry of known_findings.json may list it as open: then it prints as KNOWN-FINDING)
+    for s in sites:
+        if s["cls"] in ("UsedUnguarded", "StoredUnchecked", "Unknown"):
+            ck.spec_violation("crash:%s:%s" % (s["file"], s["key"].split(":", 1)[-1]),
+                              "allocation result used without a NULL test (%s %s) at %s:%s in %s" % (s["cls"], s.get("kind", ""), s["file"], s.get("line", "?"), s.get("func", "?")),
+                              {"site": s["key"], "class": s["cls"], "kind": s.get("kind"), "found_by": "translator table (static)", "why": s.get("why")})
     coq_ok = ck.coq_properties()
+    if hasattr(ck, "_model_unlock"):
+        ck._model_unlock()  # no extraction in this check: the shared coq/ tree is not needed any more
     # ---- 2. fault sweep
     R = build_fault_variant(ck)
     exe = ck.cc("h_fault.c", variant="fault", wraps=WRAPS, extra=SAN)
@@ -533,10 +542,10 @@ def run(ck):
     occ = 0 if thorough else QUICK_OCC
     plans = [(s, 0, occ) for s in scen]
     if thorough:
-        plans += [(s, 40, 0) for s in scen if s != "keys"] + [(s, 400, 0) for s in POSITIVE] + [(s, 7, 0) for s in QUICK_SCEN]
+        plans += [(s, 40, 0) for s in scen if s != "keys" and "+" not in s] + [(s, 400, 0) for s in POSITIVE] + [(s, 7, 0) for s in QUICK_SCEN]
     for (s, multi, maxocc) in plans:
         t1 = time.time()
-        procs = run_scenario(exe, s, outdir, 4, 2, maxocc, multi, ck.seed + (multi * 1000), lsan=(thorough and multi == 0))
+        procs = run_scenario(exe, s, outdir, 4, 2, maxocc, multi, ck.seed + (multi * 1000), lsan=(thorough and multi == 0 and "+" not in s))
         data = collect(procs, timeout=3000)
         obs, st = analyse(ck, exe, s, data, sidx, sym, multi, report, seed_used=ck.seed + (multi * 1000))
         for key, o in obs.items():
@@ -618,22 +627,34 @@ def run(ck):
 
 
 def replay(ck, path):
-    """re-run one recorded fault: scenario + allocation index k (+ multi/seed)"""
+    """re-run one recorded fault: scenario + allocation index k (+ multi/seed), with the same oracles as the sweep"""
     rp = json.load(open(path))["replay"]
     if rp.get("harness") != "h_fault":
         print("replay: nothing executable recorded (obligation failure?)"); print(json.dumps(rp, indent=1)[:2000]); return
-    build_fault_variant(ck)
+    R = build_fault_variant(ck)
     exe = ck.cc("h_fault.c", variant="fault", wraps=WRAPS, extra=SAN)
+    index_repo_files(R)
+    vlib.sh([sys.executable, os.path.join(VERIF, "tools/srcgen/gen_allocsites.py"), "--no-write", "--json", os.path.join(ck.scratch, "sites.json")],
+            env=dict(os.environ, VERIF_REPO=vlib.REPO))
+    sites = json.load(open(os.path.join(ck.scratch, "sites.json")))
     outdir = os.path.join(ck.scratch, "replay"); os.makedirs(outdir, exist_ok=True)
     res = os.path.join(outdir, "r.res")
     env = dict(os.environ, ASAN_OPTIONS="detect_leaks=0:exitcode=66:allocator_may_return_null=1", UBSAN_OPTIONS="print_stacktrace=1")
-    k = int(rp["k"])
-    subprocess.run([exe, rp["scenario"], res, str(k), "100000000", "1", "0", str(rp.get("multi", 0)), str(rp.get("seed", 1))], env=env)
-    txt = open(res).read()
-    print("\n".join(l for l in txt.split("\n") if l[:1] in "FVRB"))
+    k = int(rp["k"]); multi = int(rp.get("multi", 0)); seed = int(rp.get("seed", 1))
+    errp = open(res + ".parent.err", "w")
+    p = subprocess.Popen([exe, rp["scenario"], res, str(k), "100000000", "1", "0", str(multi), str(seed)], env=env, stdout=subprocess.DEVNULL, stderr=errp)
+    data = collect([(p, res, errp)], timeout=600)
+    txt = open(res).read() if os.path.exists(res) else ""
+    print("\n".join(l[:600] for l in txt.split("\n") if l[:1] in "FVRB"))
     ef = res + ".err.%d" % k
     if os.path.exists(ef):
         print(open(ef, errors="replace").read()[-3000:])
-    bad = any(l.startswith("R") and "exit=0" not in l for l in txt.split("\n")) or any(l.startswith("V") and " leaks=0 " not in l for l in txt.split("\n"))
-    if bad:
-        ck.violation("replayed fault still violates C19: %s" % rp.get("signature"), rp, found_input=True)
+    found = {}
+    def report(sig, what, replay_):
+        found.setdefault(sig, (what, replay_))
+    analyse(ck, exe, rp["scenario"], data, SiteIndex(sites), Sym(exe), multi, report, seed_used=seed)
+    for sig, (what, r_) in found.items():
+        print("REPLAYED: %s\n  %s" % (sig, what))
+        ck.violation("replayed fault still violates C19: " + what, dict(r_, signature=sig), found_input=True)
+    if not found:
+        print("replay: the recorded fault no longer violates the property")
